@@ -58,7 +58,7 @@ func initC11() {
 		components:  withExtra(commonComponents, "scripted NBT peer", "harness code with an independent RFC 1002 section 4.3.1 framer/deframer (never the library's own)"),
 		assumptions: []string{
 			"the simulated stream follows the documented net.Conn contract (short reads, io.EOF after FIN once drained, reset error after RST, ErrClosed on local close, partial write + error); kernel specifics are not modelled",
-			"every payload length 0..131071 and the 16 lengths after it is sent once through a pair of real transports under a seeded segmentation (lenenum); the cut enumeration is exhaustive only for the 40 listed small frame sequences (wire size <= 96 bytes): every byte offset x {FIN, RST, local close} x {whole, byte-by-byte, seeded} segmentation x {peer->SUT, SUT->SUT}; large frames are sampled",
+			"every payload length 0..131071 and the 16 lengths after it is sent once through a pair of real transports under a seeded segmentation (lenenum); the cut enumeration is exhaustive only for the 40 listed small frame sequences (wire size <= 96 bytes): every byte offset x {FIN, RST, local close} x {whole, byte-by-byte, seeded} segmentation x {peer->SUT, SUT->SUT}; for 6 sequences of large frames (64 KiB boundaries) the cut is enumerated over the offsets around every header, just inside both ends and the middle of every body and the end of the stream; other cuts in large frames are sampled",
 			"no race-detector build for C11 (its tasks share nothing but the transport under test)",
 		},
 		rule: "each run: one real NBTTransport (via smb_v10/transport.NewTransport) or a pair of them over a simulated TCP stream; 1-6 frames with lengths biased to 0,1..5,0xFFFF,0x10000,0x10001,0x1FFFE,0x1FFFF,0x20000.. and random up to 200000; " +
